@@ -805,6 +805,7 @@ package tacquito
 //@   ensures[C20] ghost.gauge == upd(old(ghost.gauge), waitgroupActive, old(ghost.gauge)[waitgroupActive] - 1)
 
 //@ func (s *Server) serve(ctx context.Context, conn net.Conn)
+//@   props C03
 //@   ghostinc spawned
 //@   ensures[C18] true
 //@   requires s != nil && s.loggerProvider != nil && s.SecretProvider != nil && ctx != nil && conn != nil
@@ -816,7 +817,7 @@ package tacquito
 //@   ensures[C13] ghost.handled == old(ghost.handled) ==> ghost.replies == old(ghost.replies)
 //@   ensures[C13] ghost.pgets == old(ghost.pgets) + 1
 //@   ensures[C13] ghost.admitted == 0 ==> (ghost.nwrites == old(ghost.nwrites) && ghost.reads == old(ghost.reads) && ghost.handled == old(ghost.handled) && ghost.hcalls == old(ghost.hcalls))
-//@   before[C13] Server.handle : ghost.admitted == 1 && arg2 != nil && arg2.secret == secret && arg2.Conn == conn && arg3 == handler
+//@   before[C03,C13] Server.handle : ghost.admitted == 1 && arg2 != nil && arg2.secret == secret && arg2.Conn == conn && arg3 == handler
 
 //@ func (s *Server) Serve(ctx context.Context, listener DeadlineListener) (err error)
 //@   requires s != nil && s.loggerProvider != nil && s.SecretProvider != nil && ctx != nil && listener != nil
